@@ -479,6 +479,41 @@ func TestC15ReaderLegacyBig(t *testing.T) {
 	}
 }
 
+// TestC15WriterLegacyBig: the Writer side of the same regime - a legacy stream of an incompressible 8 MiB block (the retry into a
+// larger buffer) and a short one, sequential and concurrent, through Write and ReadFrom: every sink call fails in turn, in every variant.
+func TestC15WriterLegacyBig(t *testing.T) {
+	rec := stat.For("C15")
+	rec.SetRule(c15Rule)
+	if shard != nshards-1 {
+		return
+	}
+	data := gen.Data{Segs: []gen.Seg{{K: "rand", N: 8 << 20, S: 43}, {K: "text", N: 70000, S: 44, P: 3}}}
+	for _, conc := range []int{1, 2} {
+		for _, del := range []delivery{{Mode: "write"}, {Mode: "write", Chunks: []int{3 << 20, 5<<20 + 1}, Flush: []bool{false, true}}, {Mode: "readfrom", Src: []int{1 << 20}}} {
+			c := c15WCase{Opts: wopts{BS: 7, Legacy: true, Conc: conc}, Data: data, Del: del}
+			base, f := c15FaultFree(c)
+			if f != nil {
+				t.Fatalf("fault-free run fails: %s", f.Msg)
+			}
+			for k := 1; k <= base.calls; k++ {
+				for v := 0; v < 5; v++ {
+					cc := c
+					cc.FailAt, cc.Sticky = k, v&1 == 1
+					if v&2 != 0 {
+						cc.Partial = 1 + k%3
+					}
+					if v == 4 {
+						cc.Partial = 1 << 30
+					}
+					journal("C15", "C15/writer", cc)
+					judge(t, "C15", "C15/writer", cc, safelyF(func() *stat.Failure { return runC15WWith(cc, base, rec) }))
+				}
+			}
+			rec.Class("writer/legacy-incompressible-8MiB-block")
+		}
+	}
+}
+
 func TestC15Reader(t *testing.T) {
 	rec := stat.For("C15")
 	rec.SetRule(c15Rule)
